@@ -171,7 +171,7 @@ static CO_OBJ od[] = {
     { OD_ID(0x1006, 0, CO_OBJ_____RW), CO_TSYNC_CYCLE, (CO_DATA)&v1006 },
 #endif
 #ifdef OD_PARA
-    { OD_ID(0x1010, 0, CO_OBJ_D___R_), CO_TUNSIGNED8,  (CO_DATA)OD_PARA_G },
+    { OD_ID(0x1010, 0, CO_OBJ_D___R_), CO_TPARA_STORE, (CO_DATA)OD_PARA_G },
     { OD_ID(0x1010, 1, CO_OBJ_____RW), CO_TPARA_STORE, (CO_DATA)&od_para_0 },
 #if OD_PARA_G > 1
     { OD_ID(0x1010, 2, CO_OBJ_____RW), CO_TPARA_STORE, (CO_DATA)&od_para_1 },
@@ -179,7 +179,7 @@ static CO_OBJ od[] = {
 #if OD_PARA_G > 2
     { OD_ID(0x1010, 3, CO_OBJ_____RW), CO_TPARA_STORE, (CO_DATA)&od_para_2 },
 #endif
-    { OD_ID(0x1011, 0, CO_OBJ_D___R_), CO_TUNSIGNED8,  (CO_DATA)OD_PARA_G },
+    { OD_ID(0x1011, 0, CO_OBJ_D___R_), CO_TPARA_RESTORE, (CO_DATA)OD_PARA_G },
     { OD_ID(0x1011, 1, CO_OBJ_____RW), CO_TPARA_RESTORE, (CO_DATA)&od_para_0 },
 #if OD_PARA_G > 1
     { OD_ID(0x1011, 2, CO_OBJ_____RW), CO_TPARA_RESTORE, (CO_DATA)&od_para_1 },
